@@ -503,6 +503,25 @@ pub fn menu(seed: &Seed, with_unsealed: bool) -> Vec<Mutation> {
         }
         m.push(Mutation::XmlRaw { bytes: deep.into_bytes(), what: "XML replaced by 20000 nested open tags".into() });
         m.push(Mutation::XmlRaw { bytes: Vec::new(), what: "XML replaced by nothing (length 0)".into() });
+        // product bombs: k comments in front of the root element and k elements that the reader
+        // looks at and skips (work proportional to k*k shows as minutes, linear work as milliseconds)
+        if with_unsealed {
+            if let (Some(root_at), Some(d3)) = (xml.find("<e57Root").or_else(|| xml.find(":e57Root").and_then(|p| xml[..p].rfind('<'))), xml.find("<data3D")) {
+                if let Some(d3_end) = xml[d3..].find('>').map(|e| d3 + e + 1) {
+                    if !xml[d3..d3_end].ends_with("/>") {
+                        for (k, what) in [(150_000usize, "<vectorChild/>"), (150_000, "<vectorChild type=\"Integer\"/>")] {
+                            let mut doc = String::with_capacity(xml.len() + 30 * k);
+                            doc.push_str(&xml[..root_at]);
+                            doc.push_str(&"<!---->".repeat(k));
+                            doc.push_str(&xml[root_at..d3_end]);
+                            doc.push_str(&what.repeat(k));
+                            doc.push_str(&xml[d3_end..]);
+                            m.push(Mutation::XmlRaw { bytes: doc.into_bytes(), what: format!("{k} comments in front of the root element and {k} x {what} inside data3D") });
+                        }
+                    }
+                }
+            }
+        }
         // repetition bombs: 2 MiB of one unterminated / unbalanced token (anything that rescans the
         // rest of the document per token needs time quadratic in the input size)
         if with_unsealed {
